@@ -28,7 +28,7 @@ RULE = ("ParameterGrid laws, exhaustive: every grid made of 1..G sub-grids (G=2 
         "scripted optimizer logs every optimize() call (its current parameters, task, mode, workers) to an append-only "
         "file and returns a best cost taken from a Hypothesis-drawn score table S[point][trial] (small dyadics with ties "
         "between means and differing variances); grids <= 12 points, n_trials 1..4, n_jobs 1..4, min and max tasks, all "
-        "modes. Oracle: the log holds every grid point exactly n_trials times with exactly that point's parameters; "
+        "modes; one case in four first runs another execute() on the same tuner (another task whose scores would win if anything leaked). Oracle: the log holds every grid point exactly n_trials times with exactly that point's parameters; "
         "_df_fit has one row per point whose trial columns are a permutation of S[point]; best_parameters is a grid point "
         "whose mean is optimal in the task's direction (any optimal point accepted) and best_score equals that mean; "
         "resolve() issues exactly one more call, with best_parameters. Non-trivial = score table with >= 2 distinct "
@@ -150,7 +150,9 @@ def exec_case(draw):
     return {"shapes": shapes, "variant": draw(st.integers(0, 2)), "bare": n_sub == 1 and draw(st.booleans()),
             "n_trials": n_trials, "n_jobs": draw(st.integers(1, 4)), "minmax": draw(st.sampled_from(["min", "max"])),
             "mode": draw(st.sampled_from(["serial", "thread", "process"])),
-            "n_workers": draw(st.sampled_from([None, 1, 2, 3])), "table": table}
+            "n_workers": draw(st.sampled_from([None, 1, 2, 3])), "table": table,
+            # an earlier execute() on the same tuner (another task whose scores would win if they leaked)
+            "warmup": draw(st.integers(0, 3)) == 0}
 
 
 def exec_laws(c):
@@ -174,6 +176,16 @@ def exec_laws(c):
         L.counters = {k: multiprocessing.Value("i", 0) for k in scores}
         algo = scripted.AlgoA()
         tuner = HyperTuner(algo, arg)
+        if c.get("warmup"):
+            other = scripted.TaskOne(variables=task.variables, minmax=c["minmax"])
+            lure = -1000.0 if c["minmax"] == "min" else 1000.0
+            for p_ in ref:
+                k_ = f"{other.name}|{json.dumps(p_, sort_keys=True)}"
+                L.scores[k_] = [lure, lure + 1.0]
+                L.counters[k_] = multiprocessing.Value("i", 0)
+            with contextlib.redirect_stdout(io.StringIO()):
+                tuner.execute(other, n_trials=max(1, c["n_trials"] - 1), n_jobs=c["n_jobs"], mode="serial")
+            open(L.log_path, "w").close()
         with contextlib.redirect_stdout(io.StringIO()):
             tuner.execute(task, n_trials=c["n_trials"], n_jobs=c["n_jobs"], mode=c["mode"], n_workers=c["n_workers"])
         log = scripted.read_log(L.log_path)
@@ -293,7 +305,8 @@ def run_shard(shard, tier, seed):
 
     def case(c):
         vio, nt = exec_laws(c)
-        ctx.case(c, nt, [f"exec:{c['minmax']}", f"exec:mode:{c['mode']}", f"exec:trials:{c['n_trials']}"])
+        ctx.case(c, nt, [f"exec:{c['minmax']}", f"exec:mode:{c['mode']}", f"exec:trials:{c['n_trials']}",
+                         "exec:after_earlier_execute" if c.get("warmup") else "exec:fresh_tuner"])
         ctx.judge(c, vio)
 
     runner.drive(ctx, exec_case(), case, shard["n"], seed, max_shrink_evals=60)
